@@ -104,7 +104,7 @@ func init() {
 	register(ruleState, ruleStateVerbose, ruleInitOnly, ruleScope)
 	addProp(&PropSpec{
 		ID:    "C09",
-		Rules: []string{"R-STATE", "R-INITONLY", "R-SCOPE", "R-ONELEVEL"},
+		Rules: []string{"R-STATE", "R-INITONLY", "R-SCOPE", "R-ONELEVEL", "R-LAST"},
 		Explanation: "The 'context intact' clause of C09 as a typestate over the Executor's fields: every function that overwrites @ (current), the innermost array size, the base object or the structural-error flag loads the previous value first and writes it back on every exit path, error exits included; `$`, variables, options and the path are written only before evaluation starts. " +
 			"Decides the structural necessary condition (no leak of a nested context); does not decide the concatenation equation itself.",
 		Decided:     []string{"R-STATE: save/restore on every exit for each mutated context field (defer literal, restorer helper deferred at each call site, or explicit stores)", "R-INITONLY: `$`/vars/useTZ/path fixed during evaluation", "R-SCOPE: while @ is rebound no status-returning evaluation receives the step's own node (the rest of the outer chain sees the outer @)"},
